@@ -12,16 +12,16 @@ import (
 )
 
 type eraCtx struct {
-	c     *Ctx
-	a     *Acts
-	reps  []uint32
-	repsQ map[uint32]bool // the quick-tier representatives (subset of reps)
-	sb    map[uint32]*Trace // SyncBlock
-	gr    map[uint32]*Trace // Grade
-	gs    map[uint32]*Trace // GradeS
-	db    map[uint32]*Trace // DBlockSync (height = Synced+1)
-	quiet map[uint32]*Trace // SyncBlock, no fault, nothing on the tracked chains
-	globals map[string]AVal  // activation overrides of a configuration variant ("config.X" -> value)
+	c       *Ctx
+	a       *Acts
+	reps    []uint32
+	repsQ   map[uint32]bool   // the quick-tier representatives (subset of reps)
+	sb      map[uint32]*Trace // SyncBlock
+	gr      map[uint32]*Trace // Grade
+	gs      map[uint32]*Trace // GradeS
+	db      map[uint32]*Trace // DBlockSync (height = Synced+1)
+	quiet   map[uint32]*Trace // SyncBlock, no fault, nothing on the tracked chains
+	globals map[string]AVal   // activation overrides of a configuration variant ("config.X" -> value)
 }
 
 func hconst(h uint32) AVal { return cUint(uint64(h)) }
@@ -281,19 +281,27 @@ func (e *eraCtx) rowsC11(r *Report) []row {
 	return []row{
 		{rule, "OPR grader version by height",
 			func(h uint32) string { return fmt.Sprintf("%d", a.oprGraderVersion(h)) },
-			func(h uint32) string { return constArgs(e.grade(h, "O"), "github.com/pegnet/pegnet/modules/grader.NewGrader", 0) },
+			func(h uint32) string {
+				return constArgs(e.grade(h, "O"), "github.com/pegnet/pegnet/modules/grader.NewGrader", 0)
+			},
 			e.posOf("node.Pegnetd.Grade", "NewGrader")},
 		{rule, "OPR grader is given the block height",
 			func(h uint32) string { return fmt.Sprintf("%d", h) },
-			func(h uint32) string { return constArgs(e.grade(h, "O"), "github.com/pegnet/pegnet/modules/grader.NewGrader", 1) },
+			func(h uint32) string {
+				return constArgs(e.grade(h, "O"), "github.com/pegnet/pegnet/modules/grader.NewGrader", 1)
+			},
 			e.posOf("node.Pegnetd.Grade", "NewGrader")},
 		{rule, "SPR grader version by height",
 			func(h uint32) string { return fmt.Sprintf("%d", a.sprGraderVersion(h)) },
-			func(h uint32) string { return constArgs(e.grade(h, "S"), "github.com/pegnet/pegnet/modules/graderStake.NewGrader", 0) },
+			func(h uint32) string {
+				return constArgs(e.grade(h, "S"), "github.com/pegnet/pegnet/modules/graderStake.NewGrader", 0)
+			},
 			e.posOf("node.Pegnetd.GradeS", "NewGrader")},
 		{rule, "SPR grader is given the block height",
 			func(h uint32) string { return fmt.Sprintf("%d", h) },
-			func(h uint32) string { return constArgs(e.grade(h, "S"), "github.com/pegnet/pegnet/modules/graderStake.NewGrader", 1) },
+			func(h uint32) string {
+				return constArgs(e.grade(h, "S"), "github.com/pegnet/pegnet/modules/graderStake.NewGrader", 1)
+			},
 			e.posOf("node.Pegnetd.GradeS", "NewGrader")},
 		burnRow(e, rule),
 		{rule, "SPR winners paid iff height >= V20HeightActivation",
